@@ -57,7 +57,7 @@ THEOREMS = [
 # head of the NEXT `Check` output ("c10_xxx : ...") as one more axiom entry; the pinned names are therefore allowed here.
 # The genuine axioms are exactly the three listed above (Coq's classical real numbers).
 AXIOM_ALLOW += [n for n, _ in THEOREMS]
-SHARD = 1900      # the quick tier (about 7 600 cases) makes four equal batch files, one per coqc worker
+SHARD = 2050      # the quick tier (about 8 100 cases) makes four equal batch files, one per coqc worker
 RULE = ("integer lattice configurations (coordinates in [-20,20], radii 1..20) for line/ll/cl/cc/position/contains; exact "
         "Pythagorean tangencies (3-4-5, 5-12-13, 8-15-17, scaled, all sign/axis variants, also axis-aligned) for circle-circle "
         "(inside and outside) and circle-line; the same tangencies moved by a Pythagorean rotation, a real scale and a real "
@@ -77,7 +77,18 @@ RULE = ("integer lattice configurations (coordinates in [-20,20], radii 1..20) f
         "unit normal in line/ll/cl/contains/dist/parallel, Line::default() and zero-normal literals as out-of-quantifier cases "
         "decided by model_check alone; the entry points Line::dist, util::dist, util::parallel and the Point operations "
         "(+ and - in all four receiver forms, * and / by a scalar, dp, cp, slen, len, From, ==, Default) on their own inputs and on "
-        "the inputs of a third of the ll / contains cases; the generated cases are shuffled so that the batch files are balanced. "
+        "the inputs of a third of the ll / contains cases; "
+        "axis-ll-*: one line nearly (not exactly) vertical or nearly horizontal - normalised |b| resp. |a| log-uniform in "
+        "[1e-10, 1e-4] or one of 1e-10, 5e-10, 0.9e-9, 1.1e-9, 2e-9, 1e-8 .. 1e-4 - built through Line::between with real-valued "
+        "points, Line::new with scaled coefficients and the struct literal, crossing an ordinary line (|sin| >= 0.05) at a "
+        "point of the box (coordinate magnitude 1, 10, 100 and, half of the time, 1000), every pair in BOTH argument orders "
+        "(220 quick / 2100 thorough), with its neighbours: nearly vertical x nearly horizontal, exactly vertical / horizontal "
+        "lines at real-valued coordinates, two nearly vertical lines crossing under 1e-7 .. 1e-4 (kind only), circle x nearly "
+        "axis-aligned line (clear crossing, exact tangency, 20 .. 1e4 EPS on either side of it), two circles whose centre line is nearly "
+        "axis-aligned (crossing and near-tangent, both orders), Line::between/new, contains, Line::dist, position and util::dist on "
+        "such data, origin-ll-* / tinyc-ll: crossings whose point has a tiny (1e-10 .. 1e-4) or zero coordinate and lines that "
+        "pass the origin at a tiny or zero distance; "
+        "the generated cases are shuffled so that the batch files are balanced. "
         "non-trivial = an intersection op that returned at least one point, or a position/contains/parallel query within 1e-6 of the border")
 TRUSTED = ["executor harness/crates/c10 (calls Line::new/between/dist/contains/ort and the struct literal, Circle::position, "
            "intersect_ll/cl/cc, util::dist/parallel, the Point operators and prints bit patterns; its internal consistency checks "
@@ -1007,6 +1018,239 @@ def point_op_cases(rng, n):
     return cs
 
 
+# ----------------------------------------------------------------------------- nearly axis-aligned configurations
+LO = 2.0 ** -10
+BETAS = [1e-10, 5e-10, 0.9e-9, 1.1e-9, 2e-9, 1e-8, 1e-7, 5e-7, 1e-6, 1e-5, 1e-4]
+
+
+def tiny_of(rng):
+    """the small component: log-uniform in [1e-10, 1e-4], or one of the values around the library's 1e-9"""
+    return rng.choice(BETAS) if rng.chance(1, 4) else 10.0 ** (-10.0 + 6.0 * u01(rng))
+
+
+def axis_mag(rng):
+    """magnitude of the coordinates: the large ones (where a*x + c carries the largest rounding error) more often"""
+    return rng.choice([1.0, 10.0, 100.0, 1000.0, 1000.0, 1000.0])
+
+
+def axis_normal(rng, vertical, beta=None):
+    """unit normal of a nearly vertical line (|b| = beta) or of a nearly horizontal one (|a| = beta), any signs"""
+    beta = tiny_of(rng) if beta is None else beta
+    big = math.sqrt(1.0 - beta * beta) * rng.choice([1.0, -1.0])
+    sm = beta * rng.choice([1.0, -1.0])
+    return (big, sm) if vertical else (sm, big)
+
+
+def any_normal(rng):
+    if rng.chance(1, 3):
+        p, q, h = rng.choice(DIRS[4:])
+        return p / h, q / h
+    ang = 2 * math.pi * u01(rng)
+    return math.cos(ang), math.sin(ang)
+
+
+def line_through(rng, P, n, m, form=None):
+    """the line through P with unit normal n as a line spec inside the quantifier (None when it does not fit):
+    B = Line::between two real-valued points of it, N = Line::new with scaled coefficients, R = struct literal"""
+    nx, ny = n
+    form = rng.choice(["B", "B", "N", "R"]) if form is None else form
+    if form == "B":
+        for _ in range(20):
+            t1 = (2 * u01(rng) - 1) * 2.0 * m
+            L = (0.05 + 1.95 * u01(rng)) * m * rng.choice([1.0, -1.0])
+            if rng.chance(1, 6):
+                t1 = 0.0                                            # P itself is a defining point
+            u = (P[0] - t1 * ny, P[1] + t1 * nx)
+            v = (P[0] - (t1 + L) * ny, P[1] + (t1 + L) * nx)
+            if max(abs(w) for w in u + v) <= 1024 and math.hypot(u[0] - v[0], u[1] - v[1]) >= 2 * LO:
+                return ["B", u[0], u[1], v[0], v[1]]
+        return None
+    c0 = -(nx * P[0] + ny * P[1])
+    if abs(c0) > 1024:
+        return None
+    if form == "R":
+        return ["R", nx, ny, c0]
+    s = rng.choice([1.0, -1.0, 1.0 + 1e-7, 1e-3, 1e3, 2.0, 0.5, -7.3]) if rng.chance(2, 3) else 10.0 ** (4 * u01(rng) - 2)
+    if max(abs(s * nx), abs(s * ny), abs(s * c0)) > 1024:
+        s = 1.0
+    return ["N", s * nx, s * ny, s * c0]
+
+
+def spec_normal(l):
+    """unit normal of a line spec, in floating point (generator side only: used to keep pairs well conditioned)"""
+    if l[0] == "B":
+        a, b = l[2] - l[4], l[3] - l[1]
+    else:
+        a, b = l[1], l[2]
+    k = math.hypot(a, b)
+    return a / k, b / k
+
+
+def both_orders(cs, op, tag, l1, l2):
+    cs.append({"op": op, "tag": tag, "l1": l1, "l2": l2})
+    cs.append({"op": op, "tag": tag + "-swapped", "l1": l2, "l2": l1})
+
+
+def axis_ll_cases(rng, npairs):
+    """one line nearly (not exactly) vertical or nearly horizontal - normalised |b| resp. |a| log-uniform in
+    [1e-10, 1e-4] - crossing an ordinary line (|sin| >= 0.05) at a point of the box, every pair in BOTH argument
+    orders.  A routine that recovers one coordinate by back-substitution into such a line divides the rounding
+    error of a*x + c by the tiny coefficient (seed C10i)."""
+    cs = []
+    while len(cs) < 2 * npairs:
+        vertical = rng.chance(1, 2)
+        m = axis_mag(rng)
+        P = ((2 * u01(rng) - 1) * m, (2 * u01(rng) - 1) * m)
+        n1 = axis_normal(rng, vertical)
+        while True:
+            n2 = any_normal(rng)
+            if abs(n1[0] * n2[1] - n1[1] * n2[0]) >= 0.05:
+                break
+        l1 = line_through(rng, P, n1, m)
+        l2 = line_through(rng, P, n2, m, rng.choice(["B", "B", "B", "N", "R"]))
+        if l1 is None or l2 is None:
+            continue
+        if l1[0] == "B" and (l1[1] == l1[3] or l1[2] == l1[4]):
+            continue                                                # exactly axis-aligned after rounding: other family
+        both_orders(cs, "ll", "axis-ll-%s-%s" % ("v" if vertical else "h", l1[0]), l1, l2)
+    return cs
+
+
+def axis_neighbour_cases(rng, n):
+    """the neighbours of axis_ll_cases: every other routine on nearly axis-aligned data, and the other ways in which one
+    coefficient or one coordinate of a line-line configuration can be tiny without being zero"""
+    cs = []
+    i = 0
+    while len(cs) < n:
+        fam = i % 12
+        i += 1
+        vertical = rng.chance(1, 2)
+        m = axis_mag(rng)
+        P = ((2 * u01(rng) - 1) * m, (2 * u01(rng) - 1) * m)
+        n1 = axis_normal(rng, vertical)
+        if fam == 0:
+            # nearly vertical x nearly horizontal: both candidate pivots (u.b and v.a) are tiny
+            l1 = line_through(rng, P, n1, m)
+            l2 = line_through(rng, P, axis_normal(rng, not vertical), m)
+            if l1 is None or l2 is None:
+                continue
+            both_orders(cs, "ll", "axis-ll-vh", l1, l2)
+        elif fam == 1:
+            # EXACTLY vertical / horizontal lines at real-valued coordinates, against a nearly axis-aligned or an
+            # ordinary line (the exact zero coefficient is the case a pivot rule is written for)
+            e = (rng.choice([1.0, -1.0]), 0.0) if vertical else (0.0, rng.choice([1.0, -1.0]))
+            l1 = line_through(rng, P, e, m)
+            k = rng.below(3)
+            n2 = axis_normal(rng, not vertical) if k == 0 else any_normal(rng)
+            if abs(e[0] * n2[1] - e[1] * n2[0]) < 0.05:
+                continue
+            l2 = line_through(rng, P, n2, m)
+            if l1 is None or l2 is None:
+                continue
+            both_orders(cs, "ll", "axis-ll-exact", l1, l2)
+        elif fam == 2:
+            # two nearly vertical (horizontal) lines: they cross under an angle of 1e-7 .. 1e-4, only the kind is required
+            b1 = 10.0 ** (-7.0 + 3.0 * u01(rng))
+            n1 = axis_normal(rng, vertical, b1)
+            n2 = axis_normal(rng, vertical, b1 * rng.choice([-1.0, 0.3, 3.0, -0.5]) if rng.chance(1, 2) else tiny_of(rng))
+            sn = abs(n1[0] * n2[1] - n1[1] * n2[0])
+            if sn < 5e-8:
+                continue
+            Q = ((2 * u01(rng) - 1) * m, (2 * u01(rng) - 1) * m)
+            l1, l2 = line_through(rng, P, n1, m), line_through(rng, Q, n2, m)
+            if l1 is None or l2 is None:
+                continue
+            both_orders(cs, rng.choice(["ll", "ll", "par"]), "axis-ll-pair", l1, l2)
+        elif fam in (3, 4):
+            # circle x nearly axis-aligned line: clear crossing, or 20 .. 1e4 EPS on either side of the tangency
+            r = rng.choice([0.05, 1.0, 3.0, 10.0, 100.0, 700.0]) if rng.chance(1, 2) else (0.05 + 0.95 * u01(rng)) * m
+            if fam == 3:
+                d = (2 * u01(rng) - 1) * 0.95 * r
+                tag = "axis-cl-cross"
+            else:
+                delta = rng.choice([0, 20, -20, 100, -100, 1000, -1000, 10000, -10000]) * EPS
+                d = (r + delta) * rng.choice([1, -1])
+                tag = "axis-cl-near"
+            l = line_through(rng, P, n1, m)
+            cx, cy = P[0] + d * n1[0], P[1] + d * n1[1]
+            if l is None or max(abs(cx), abs(cy)) > 1024:
+                continue
+            cs.append({"op": "cl", "tag": tag, "a": [cx, cy, r], "l1": l})
+        elif fam in (5, 6):
+            # two circles whose centre line is nearly axis-aligned (the radical line is then nearly axis-aligned too)
+            ra = rng.choice([1.0, 3.0, 10.0, 100.0, 700.0]) if rng.chance(1, 2) else (0.05 + 0.95 * u01(rng)) * m
+            rb = ra * (0.05 + 0.95 * u01(rng)) if rng.chance(2, 3) else max(LO, ra / rng.choice([100.0, 1000.0, 1e4]))
+            if fam == 5:
+                d = abs(ra - rb) + (0.05 + 0.9 * u01(rng)) * (ra + rb - abs(ra - rb))
+                tag = "axis-cc-cross"
+            else:
+                delta = rng.choice([0, 20, -20, 100, -100, 10000, -10000]) * EPS
+                inner = rng.chance(1, 2) and ra - rb > 0.01
+                d = ra - rb + delta if inner else ra + rb - delta
+                tag = "axis-cc-near-%s-%s" % ("in" if inner else "out", "cross" if delta > 0 else "apart" if delta < 0 else "tan")
+            a = [P[0], P[1], ra, P[0] + d * n1[0], P[1] + d * n1[1], rb]
+            if max(abs(v) for v in a) > 1024:
+                continue
+            cs.append({"op": "cc", "tag": tag, "a": a})
+            cs.append({"op": "cc", "tag": tag + "-swapped", "a": a[3:] + a[:3]})
+        elif fam == 7:
+            # the line itself, and contains / Line::dist of points on and next to it
+            l = line_through(rng, P, n1, m)
+            if l is None:
+                continue
+            tau = (2 * u01(rng) - 1) * m
+            off = rng.choice([0.0, 3e-11, -3e-11, 5e-8, -5e-8, 1e-6, 1e-3, -0.5])
+            pt = [P[0] - tau * n1[1] + off * n1[0], P[1] + tau * n1[0] + off * n1[1]]
+            if max(abs(v) for v in pt) > 1024:
+                continue
+            cs.append({"op": "line", "tag": "axis-line", "l1": l})
+            cs.append({"op": rng.choice(["con", "ldist"]), "tag": "axis-con", "l1": l, "a": pt})
+        elif fam == 8:
+            # position of a point that lies in a nearly axial direction from the centre; util::dist of such a pair
+            r = rng.choice([0.01, 1.0, 100.0, 700.0]) if rng.chance(1, 2) else (0.05 + 0.95 * u01(rng)) * m
+            t = rng.choice([0.0, 3e-11, -3e-11, 2e-8, -2e-8, 1e-3, -1e-3, 0.5])
+            q = [P[0] + r * (1.0 + t) * n1[0], P[1] + r * (1.0 + t) * n1[1]]
+            if max(abs(v) for v in q) > 1024:
+                continue
+            cs.append({"op": "pos", "tag": "axis-pos", "a": [P[0], P[1], r] + q})
+            cs.append({"op": "dist", "tag": "axis-dist", "a": [P[0], P[1]] + q})
+        elif fam in (9, 10):
+            # an ordinary crossing whose POINT has a tiny (or zero) coordinate, or lies next to / at the origin
+            tx, ty = tiny_of(rng) * rng.choice([1.0, -1.0]), tiny_of(rng) * rng.choice([1.0, -1.0])
+            k = rng.below(5)
+            P = [(tx, P[1]), (P[0], ty), (tx, ty), (0.0, P[1]), (0.0, 0.0)][k]
+            na = any_normal(rng)
+            while True:
+                nb = any_normal(rng) if rng.chance(2, 3) else axis_normal(rng, rng.chance(1, 2))
+                if abs(na[0] * nb[1] - na[1] * nb[0]) >= 0.05:
+                    break
+            l1, l2 = line_through(rng, P, na, m), line_through(rng, P, nb, m)
+            if l1 is None or l2 is None:
+                continue
+            both_orders(cs, "ll", "origin-ll-%d" % k, l1, l2)
+        else:
+            # a line that passes the origin at a tiny distance (|c| log-uniform in [1e-10, 1e-4], or exactly 0)
+            c0 = rng.choice([0.0, tiny_of(rng), -tiny_of(rng)])
+            na = any_normal(rng) if rng.chance(1, 2) else n1
+            Pa = (-c0 * na[0], -c0 * na[1])
+            l1 = line_through(rng, Pa, na, m, rng.choice(["N", "R", "B"]))
+            while True:
+                nb = any_normal(rng)
+                if abs(na[0] * nb[1] - na[1] * nb[0]) >= 0.05:
+                    break
+            l2 = line_through(rng, P, nb, m)
+            if l1 is None or l2 is None:
+                continue
+            # the crossing point has to stay inside the box
+            sn = na[0] * nb[1] - na[1] * nb[0]
+            cb = -(nb[0] * P[0] + nb[1] * P[1])
+            X = (-(c0 * nb[1] - na[1] * cb) / sn, -(na[0] * cb - c0 * nb[0]) / sn)
+            if max(abs(X[0]), abs(X[1])) > 1000:
+                continue
+            both_orders(cs, "ll", "tinyc-ll", l1, l2)
+    return cs
+
+
 def twins(cases, rng):
     """the same inputs through the entry points that the intersection routines use internally: parallel for a line pair,
     Line::dist for a contains query, util::dist for the two centres of a circle pair"""
@@ -1036,6 +1280,8 @@ def generate(rng, tier):
     cases += small_cases(rng.fork("small"), 150 if quick else 1500)
     cases += coefficient_cases(rng.fork("coef"), 240 if quick else 2400)
     cases += point_op_cases(rng.fork("ptops"), 160 if quick else 1600)
+    cases += axis_ll_cases(rng.fork("axis-ll"), 110 if quick else 1050)
+    cases += axis_neighbour_cases(rng.fork("axis-nb"), 260 if quick else 2600)
     cases += twins(cases, rng.fork("twins"))
     # the circle cases cost the specification several times more than the others: spread them over the batch files
     rng.fork("order").shuffle(cases)
@@ -1195,7 +1441,10 @@ def extra(ctx, known):
                      "checks": "every returned point within 1e-7 of both primitives (f64 hypot against the defining data); kind vs "
                                "exact i128 classification on the lattice quarter, vs the 1e-8 margin otherwise (incl. radius "
                                "ratios log-uniform up to 1e6:1 at 20..1e4 EPS from a tangency, and clear crossings of a circle "
-                               "of radius 100..1024 with one of radius 2^-10..1, both argument orders)"}
+                               "of radius 100..1024 with one of radius 2^-10..1, both argument orders); one real-valued "
+                               "configuration in five has a nearly (not exactly) axis-aligned line (small direction component "
+                               "log-uniform 1e-10..1e-4) as first or second argument of intersect_ll, as the line of "
+                               "intersect_cl, or as the centre line of a clear circle-circle crossing"}
     try:
         cov["model_bit_for_bit"] = exact_stats(ctx)
     except Exception as e:  # statistics only
@@ -1221,7 +1470,9 @@ MANIFEST = {
             "that each returned point is within 1e-7 of both primitives and that the kind is the exact kind away from the "
             "tolerance bands (exact Pythagorean tangencies included); inside the bands (margins 0.3..7 EPS) the binary64 model "
             "pins the code's answer, i.e. the value of EPS at every comparison. Sampled up to radius ratio 1e6:1, exact "
-            "coincidences, the small end of the quantifier, coefficient-form and literal lines; Line::dist, util::dist, "
+            "coincidences, the small end of the quantifier, coefficient-form and literal lines, nearly (not exactly) "
+            "axis-aligned lines and centre lines (small component 1e-10..1e-4, both argument orders, every routine) and "
+            "crossing points / offsets with a tiny coordinate; Line::dist, util::dist, "
             "util::parallel and the Point operations are compared as entry points of their own. The 1e-7 floating-point bound "
             "(c10_rounding_partial) is NOT proved: it is decided by that exact check and by an implementation-level "
             "search (both build profiles).",
